@@ -228,7 +228,7 @@ func (vp ACCEPTVoteproof) BallotMajority() base.ACCEPTBallotFact {
 		return nil
 	}
 
-	return vp.majority.(ACCEPTBallotFact) //nolint:forcetypeassert //...
+	return vp.majority.(base.ACCEPTBallotFact) //nolint:forcetypeassert //...
 }
 
 func (vp ACCEPTVoteproof) BallotSignFacts() []base.ACCEPTBallotSignFact {
